@@ -23,6 +23,7 @@ def Inv (s : St) : Prop :=
 def jsonOK (cfg : Cfg) : Op → Bool
   | .lmut _ (.setitem _ v) | .lmut _ (.append v) | .lmut _ (.insert _ v) => tupFree v
   | .lmut _ (.setslice _ _ k vs) => cfg.wraps .setslice k && vs.all tupFree
+  | .lmut _ (.setsliceStep _ _ _ k vs) => cfg.wraps .setslice k && vs.all tupFree
   | .lmut _ (.extend k vs) => cfg.wraps .extend k && vs.all tupFree
   | .lmut _ (.iadd k vs) => cfg.wraps .iadd k && vs.all tupFree
   | .lmut _ (.sortRaise _) => cfg.notifyOnError        -- a change that ends in an exception needs the try/finally
@@ -466,6 +467,11 @@ def cfgUnwrapped : Cfg := {
   notifyOnError := false }
 
 example : cfgUnwrapped.covers = true ∧ cfgUnwrapped.wrapsAll = false := by decide
+-- extended slices: `x[::2] = [[], []]` on a 3-item list stores two wrapped lists; `del x[::-2]` keeps the middle item
+example : (lEffect (.setsliceStep none none 2 .list [.atom .null, .atom .null]) [li one, li one, li one]).toOption
+    = some [li (.atom .null), li one, li (.atom .null)] := by rfl
+example : (lEffect (.delsliceStep none none (-2)) [li one, li (.atom .null), li one]).toOption = some [li (.atom .null)] := by rfl
+example : (lEffect (.setsliceStep none none 2 .list [one]) [li one, li one, li one]).toOption = none := by rfl
 example : Inv (St.load table v0) := C28_load_wrapped table v0 (by decide)
 -- an ordinary nested JSON argument at depth 2 meets the guard, for the table of the current source
 example : jsonOK table (.lmut [.idx 0, .idx 1] (.append (.node .dict false [("", .node .list false [.mk "" one])]))) = true := by decide
